@@ -394,6 +394,18 @@ type Calc {
   window(lo: Int, hi: Int = 9): String!
 }
 `, "hand/models.go": methodOrderModels, "cmd/harness/main.go": harnessSource(false, true)},
+		// schema split over files, one of which holds ONLY directive definitions (follow-schema
+		// generates one Go file per schema file)
+		"directivesfile": {"schema/directives.graphqls": `directive @auth(role: String = "user") on FIELD_DEFINITION | OBJECT
+directive @onQ(x: Int) on QUERY | MUTATION | SUBSCRIPTION
+directive @onF(id: ID) on FIELD | FRAGMENT_SPREAD | INLINE_FRAGMENT
+directive @onArg(min: Int) on ARGUMENT_DEFINITION | INPUT_FIELD_DEFINITION
+`, "schema/types.graphqls": `type Query { me(limit: Int @onArg(min: 1)): User @auth(role: "admin") }
+type Mutation { set(in: In): User }
+type Subscription { tick: Int! }
+type User @auth { id: ID! name: String @auth }
+input In { n: Int @onArg(min: 0) }
+`},
 		// the documented inline-config directives (docs/content/config.md, recipes/extra_fields.md)
 		"godirectives": {"schema/s.graphqls": goDirectives + `directive @goExtraField(name: String, type: String!, overrideTags: String, description: String) repeatable on OBJECT | INPUT_OBJECT
 scalar Big @goModel(model: "github.com/99designs/gqlgen/graphql.Int64")
